@@ -206,6 +206,7 @@ pub struct NodeInfo {
     state: JobState,
     history_output: Option<String>,
     last_considered_in_gen: usize,
+    was_started: bool,
 }
 
 impl NodeInfo {
@@ -408,6 +409,7 @@ impl<T: PPGEvaluatorStrategy> PPGEvaluator<T> {
             state,
             history_output: None,
             last_considered_in_gen: 0,
+            was_started: false,
         };
         let idx = self.jobs.len() as NodeIndex;
         if self
@@ -797,7 +799,9 @@ impl<T: PPGEvaluatorStrategy> PPGEvaluator<T> {
                     job.state.is_failed()
                         || Self::_job_and_downstreams_are_ephemeral(&self.dag, &self.jobs, idx)
                 );
-                if !job.state.is_upstream_failure() {
+                // jobs that were never started (upstream failure, or aborted before
+                // they were reached) keep their records.
+                if !job.state.is_upstream_failure() && job.was_started {
                     out.remove(&job.job_id);
                     out.remove(&input_name_key);
                 }
@@ -960,16 +964,19 @@ impl<T: PPGEvaluatorStrategy> PPGEvaluator<T> {
         match j.state {
             JobState::Always(JobStateAlways::ReadyToRun) => {
                 self.jobs_ready_to_run.remove(job_id);
+                j.was_started = true;
                 set_node_state!(j, JobState::Always(JobStateAlways::Running), self.gen);
                 Ok(())
             }
             JobState::Output(JobStateOutput::ReadyToRun) => {
                 self.jobs_ready_to_run.remove(job_id);
+                j.was_started = true;
                 set_node_state!(j, JobState::Output(JobStateOutput::Running), self.gen);
                 Ok(())
             }
             JobState::Ephemeral(JobStateEphemeral::ReadyToRun(validation_status)) => {
                 self.jobs_ready_to_run.remove(job_id);
+                j.was_started = true;
                 set_node_state!(
                     j,
                     JobState::Ephemeral(JobStateEphemeral::Running(validation_status)),
